@@ -54,8 +54,17 @@ def gen_client(rng: random.Random, mode: str, n_ops: int, defs=None):
             elif r < 0.41:
                 ops.append({"op": "parse", "t": t, "seed": rng.getrandbits(30), "n": rng.randrange(0, 4)})
                 n_parse += 1
-            elif r < 0.66:
+            elif r < 0.60:
                 ops.append(gen_mutation(rng, defs, paths, h))
+            elif r < 0.66:
+                # a structure of this client built through the Python API: update blocks stay open ACROSS other clients' ops
+                bn = rng.choice(["B1", "B1", "B2"])
+                ops.append(rng.choice([
+                    {"op": "build_begin", "name": bn},
+                    {"op": "build_add", "name": bn, "ftype": rng.choice(["uint8", "uint16", "uint32", "char", names[0], "uint64"]), "n": rng.choice([None, None, 2])},
+                    {"op": "build_add", "name": bn, "ftype": rng.choice(["uint8", "uint16", "uint32", "int24", names[-1]]), "n": None},
+                    {"op": "build_end", "name": bn},
+                    {"op": "build_use", "name": bn, "seed": rng.getrandbits(16)}]))
             elif r < 0.74:
                 ops.append({"op": "dump", "h": h})
             elif r < 0.79:
@@ -218,6 +227,7 @@ class Client:
         self.parse_memo = {}
         self.extra_loaded = False
         self.loaded_texts = []
+        self.built = {}  # name -> [structure class, open update contexts, number of fields added]
 
 
 def _outcome(fn):
@@ -443,6 +453,51 @@ def exec_op(cl: Client, op, stats, mode, peers=None):
                 return ["type", t.__name__, getattr(t, "size", None)]
             except Exception:
                 return ["const", repr(cs.consts[op["name"]])]
+        return _outcome(f)
+    if k.startswith("build_"):
+        def get():
+            if op["name"] not in cl.built:
+                st = cs._make_struct(op["name"], [], align=cl.spec["cfg"]["align"])
+                if cl.spec["cfg"]["compiled"]:
+                    from dissect.cstruct import compiler
+
+                    st = compiler.compile(st)
+                cs.add_type(op["name"], st)
+                cl.built[op["name"]] = [st, [], 0]
+            return cl.built[op["name"]]
+
+        def look(st, seed=0):
+            data = gen.gen_bytes(random.Random(seed), 48)
+            o = [st.size, st.alignment, bool(st.dynamic), len(st.__fields__), sorted(st.fields)]
+            o.append(_outcome(lambda: ["val", observe(st(io.BytesIO(data)))]))
+            o.append(_outcome(lambda: ["val", observe(st()), st().dumps().hex()]))
+            return o
+
+        def f():
+            b = get()
+            st = b[0]
+            if k == "build_begin":
+                ctx = st.start_update()
+                ctx.__enter__()
+                b[1].append(ctx)
+                stats.count("probe.update_block_opened")
+                return ["ok", len(b[1])]
+            if k == "build_end":
+                if not b[1]:
+                    return ["skip"]
+                b[1].pop().__exit__(None, None, None)
+                return ["ok", look(st)]
+            if k == "build_add":
+                ft = cs.resolve(op["ftype"])
+                if op.get("n"):
+                    ft = ft[op["n"]]
+                b[2] += 1
+                st.add_field(f"m{b[2]}", ft)
+                if any(o_.built and any(x[1] for x in o_.built.values()) for o_ in (peers or []) if o_ is not cl):
+                    stats.count("probe.add_field_while_another_client_has_an_open_update_block")
+                return ["ok", look(st)]
+            return ["ok", look(st, op["seed"])]
+        cl.extra_loaded = True
         return _outcome(f)
     if k == "eval":
         from dissect.cstruct.expression import Expression
